@@ -115,7 +115,7 @@ class SRec(Sym):
 class SSeq(Sym):
     """Immutable sequence of symbolic length. `item(k)` gives the value at a (concrete or
     symbolic) index lazily; `n` is a z3 Int >= 0."""
-    __slots__ = ("n", "name", "mk", "_cache", "item_desc")
+    __slots__ = ("n", "name", "mk", "_cache", "item_desc", "ctx", "_idx")
 
     def __init__(self, n, name, mk):
         self.n = n
@@ -123,11 +123,29 @@ class SSeq(Sym):
         self.mk = mk
         self._cache = {}
         self.item_desc = None
+        self.ctx = None        # when set, items at provably-equal indices are tied together
+        self._idx = {}
 
     def item(self, k):
         key = k if isinstance(k, int) else str(k)
         if key not in self._cache:
-            self._cache[key] = self.mk(k)
+            it = self.mk(k)
+            self._cache[key] = it
+            self._idx[key] = zint(k)
+            if self.ctx is not None:
+                # the same position denotes the same element: index equality implies item equality
+                for key2, it2 in self._cache.items():
+                    if key2 == key:
+                        continue
+                    same = z3.simplify(self._idx[key] == self._idx[key2])
+                    if z3.is_false(same):
+                        continue
+                    try:
+                        eq = leaf_equalities(it, it2)
+                    except Undecided:
+                        continue
+                    if eq:
+                        self.ctx.assume(z3.Implies(same, z3.And(*eq)))
         return self._cache[key]
 
     def __repr__(self):
@@ -600,6 +618,26 @@ def sym_eq(a, b, ctx=None):
     raise Undecided(f"sym_eq {a!r} {b!r}")
 
 
+def leaf_equalities(a, b):
+    """equalities between the symbolic leaves of two structurally identical generic values"""
+    out = []
+    if isinstance(a, SRec) and isinstance(b, SRec):
+        for k in a.fields:
+            out += leaf_equalities(a.fields[k], b.fields[k])
+    elif isinstance(a, SOpt) and isinstance(b, SOpt):
+        out.append(a.is_none == b.is_none)
+        out += leaf_equalities(a.val, b.val)
+    elif isinstance(a, (SInt, SBool, SStr, SOpaque)) and type(a) is type(b):
+        out.append(a.t == b.t)
+    elif isinstance(a, SBytes) and isinstance(b, SBytes) and len(a.segs) == 1 == len(b.segs) and isinstance(a.segs[0], Raw):
+        out.append(a.segs[0].t == b.segs[0].t)
+    elif isinstance(a, SSeq) and isinstance(b, SSeq):
+        out.append(a.n == b.n)
+    elif hasattr(a, "record") and hasattr(b, "record"):
+        out += leaf_equalities(a.record, b.record)
+    return out
+
+
 def tobool(x):
     if isinstance(x, SBool):
         return x.t
@@ -709,6 +747,22 @@ def equalise(ctx, a, b):
                 a.pop(0); b.pop(0)
             continue
         last = len(a) == 1 and len(b) == 1
+        # concrete bytes against a fixed-width integer encoding: decode the literal
+        hit = False
+        for lit, enc, ls, es in ((x, y, a, b), (y, x, b, a)):
+            if isinstance(lit, Lit) and isinstance(enc, Enc) and enc.codec[0] in ("be", "le") and len(lit.b) >= enc.codec[1]:
+                w = enc.codec[1]
+                val = int.from_bytes(lit.b[:w], "big" if enc.codec[0] == "be" else "little", signed=enc.codec[2])
+                conds.append(zint(enc.args[0]) == val)
+                if len(lit.b) > w:
+                    ls[0] = Lit(lit.b[w:])
+                else:
+                    ls.pop(0)
+                es.pop(0)
+                hit = True
+                break
+        if hit:
+            continue
         try:
             if (isinstance(x, Raw) and isinstance(y, Lit) or isinstance(x, Lit) and isinstance(y, Raw)) and not last:
                 raise Mismatch("raw against literal inside a longer list")
